@@ -250,6 +250,14 @@ impl FdtAsm {
     pub fn complete(&self) -> bool {
         self.symbols.len() as u64 >= self.nsym().max(1)
     }
+    /// is (sbn, esi) a source symbol of this instance? (repair symbols of an FEC-protected FDT are not used by
+    /// the reassembly: the clean stream carries every source symbol)
+    pub fn is_source(&self, sbn: u32, esi: u32) -> bool {
+        match rfc::partition(self.b as u128, self.l as u128, self.e as u128) {
+            Some(p) => (sbn as u128) < p.n.max(1) && (esi as u128) < p.symbols_of(sbn as u128).max(1),
+            None => true,
+        }
+    }
     /// reassembled (and inflated) XML
     pub fn xml(&self) -> Option<Vec<u8>> {
         let p = rfc::partition(self.b as u128, self.l as u128, self.e as u128)?;
@@ -300,7 +308,7 @@ pub fn fdt_emissions(log: &[Item]) -> Vec<FdtAsm> {
             };
             let need_new = match cur.get(&id) {
                 None => true,
-                Some(i) => out[*i].done_at_index.is_some(),
+                Some(i) => out[*i].done_at_index.is_some() && out[*i].is_source(p.sbn, p.esi),
             };
             if need_new {
                 let (l, e, b) = p.fti.unwrap_or((0, 0, 0));
@@ -308,6 +316,9 @@ pub fn fdt_emissions(log: &[Item]) -> Vec<FdtAsm> {
                 cur.insert(id, out.len() - 1);
             }
             let a = &mut out[cur[&id]];
+            if !a.is_source(p.sbn, p.esi) {
+                continue;
+            }
             a.symbols.insert((p.sbn, p.esi), p.payload.clone());
             if a.complete() {
                 a.done_at_index = Some(idx);
